@@ -6,6 +6,7 @@ import (
 	"bytes"
 	gonet "net"
 	"os"
+	"sync"
 
 	"github.com/lugu/qiloop/internal/zzverif/sym"
 )
@@ -394,4 +395,50 @@ func C10FinalizerFirst() {
 		sym.Assert(zzSameMessage(*all[0], m1) && zzSameMessage(*all[1], m2), "finalizer/messages-altered-or-reordered")
 	}
 	sym.Reach("finalizer-done")
+}
+
+// C10ConsumerOrder: a handler registered with a consumer FUNCTION (AddHandler). The consumer is slow: it
+// holds the first message while a burst of 13 more arrives, then catches up, and two more messages arrive
+// while it does. What the consumer sees is a subsequence of the arrival order (never a message before an
+// earlier one, never one twice), and it contains at least the messages that fit the documented queue of 10.
+func C10ConsumerOrder() {
+	s := newZZStream()
+	e := NewEndPoint(s)
+	gate := make(chan bool)
+	var mu sync.Mutex
+	var seen []uint32
+	first := true
+	e.AddHandler(func(h *Header) (bool, bool) { return h.Service == 3, true }, func(m *Message) error {
+		if first {
+			first = false
+			<-gate
+		}
+		mu.Lock()
+		seen = append(seen, m.Header.ID)
+		mu.Unlock()
+		return nil
+	}, nil)
+	// the burst arrives under the default schedule; the delay budget goes to the catching-up phase
+	sym.Schedules(false)
+	for i := 1; i <= 14; i++ {
+		s.inject(NewMessage(NewHeader(Post, 3, 1, 1, uint32(i)), nil))
+	}
+	sym.Quiesce()
+	sym.Schedules(true)
+	// the consumer resumes while two more messages arrive
+	go func() { gate <- true }()
+	s.inject(NewMessage(NewHeader(Post, 3, 1, 1, 16), nil))
+	s.inject(NewMessage(NewHeader(Post, 3, 1, 1, 17), nil))
+	sym.Quiesce()
+	e.Close()
+	sym.Quiesce()
+	mu.Lock()
+	defer mu.Unlock()
+	sym.Assert(len(seen) >= 10, "consumer/missed-messages-that-fit-its-queue")
+	last := uint32(0)
+	for _, id := range seen {
+		sym.Assert(id > last, "consumer/message-delivered-out-of-arrival-order")
+		last = id
+	}
+	sym.Reach("consumer-order-done")
 }
